@@ -88,6 +88,7 @@ structure OSt where
   inMsg : Bool := false      -- frames of an unfinished message have been sent
   noFlush : Bool := false
   failed : Bool := false
+  size : Option Nat := none  -- last Size() the harness reported (constructor, av, g, rs)
   deriving Repr
 
 /-- Check the frames emitted by one op against the writer contract; returns error or new state. -/
@@ -125,7 +126,9 @@ def oStep (st : OSt) (tok res : String) (writes : List Bytes) : Except String OS
       | ["w", p] => .ok { st with pending := st.pending ++ (hexOr p).take n }
       | ["wt", p] => .ok { st with pending := st.pending ++ (hexOr p).take n }
       | ["rf", _, hex, _] => .ok { st with pending := st.pending ++ (hexOr hex).take n }
-      | ["rs", sd, op] => .ok { st with client := sd == "C", op := natOr op, ext := none, pending := [], inMsg := false, noFlush := false }
+      | ["rs", sd, op] => .ok { st with client := sd == "C", op := natOr op, ext := none, pending := [], inMsg := false, noFlush := false, size := some n }
+      | ["av"] => .ok { st with size := some n }
+      | ["g", _] => .ok { st with size := some n }
       | ["ro", op] => .ok { st with op := natOr op, pending := [], inMsg := false }
       | ["se", x] => .ok { st with ext := parseExt x }
       | ["nf"] => .ok { st with noFlush := true }
@@ -160,7 +163,10 @@ def oRun (st : OSt) : List String → List String → Nat → String
   | t :: ts, it :: its, i =>
     match it.splitOn "@" with
     | [res, ws] =>
-      if res.startsWith "PANIC" then s!"bad:op{i}:panic" else
+      -- Reset to the client side of a writer whose whole buffer is at most 6 bytes (server side: Size() <= 4): the
+      -- client header does not fit and Reset panics "writer buffer is too small", like NewWriterBuffer would
+      let tooSmall := (t.splitOn ":").take 2 == ["rs", "C"] && !st.client && (match st.size with | some z => z ≤ 4 | none => true)
+      if res.startsWith "PANIC" then (if tooSmall then "ok" else s!"bad:op{i}:panic") else
       let writes := if ws == "" then [] else (ws.splitOn ",").map hexOr
       match oStep st t res writes with
       | .error e => s!"bad:op{i}:{t.take 12}:{e}"
@@ -182,7 +188,7 @@ def c06wr (a : List String) (obs : String) : String × String :=
       let w0 := { w0 with ext := parseExt ext }
       let out := wrRun w0 e toks [s!"ok:{w0.size}@"]
       let model := ";".intercalate out ++ " masks=" ++ mstr
-      let st : OSt := { client, op := natOr op, ext := parseExt ext, masks }
+      let st : OSt := { client, op := natOr op, ext := parseExt ext, masks, size := some (natOr ((((items.headD "").splitOn "@").headD "").drop 3).toString) }
       let verdict := if (items.headD "").startsWith "PANIC" then "bad:constructor-panicked" else oRun st toks (items.drop 1) 0
       (model, verdict)
   | _ => ("BADOP", "skip")
